@@ -78,6 +78,17 @@ def judge(ctx, case, fam="?"):
             ctx.violation("depends-on-call-history", case, "reused parser: %s" % canon.diff_text(got, got2, "fresh", "reused"))
     except Exception:
         SHARED["p"] = None
+    if not scr and "noscript" in data:
+        # the documented default of the scripting flag is False: leaving the argument out must not change the result
+        try:
+            from html5lib import html5parser as _hp
+            pd = _hp.HTMLParser(h5.tb("etree-full" if cont is None else "etree"))
+            got3 = h5.canon_of(pd.parse(data) if cont is None else pd.parseFragment(data, container=cont), "etree-full" if cont is None else "etree")
+            ctx.count("default_scripting_compared")
+            if got3 != got:
+                ctx.violation("default-scripting-flag-is-not-false", case, canon.diff_text(got, got3, "scripting=False", "argument omitted"))
+        except Exception:
+            pass
     nel = sum(1 for e in got if e[0] == "S")
     ctx.case([data, cont, scr], nontrivial=nel >= 7 or len(data) > 20)
     ctx.count("cases:" + fam)
